@@ -36,7 +36,7 @@ let parse_script s =
       | 'a', [t; d; z] -> (opid, 'a', int_of_string t, int_of_string d, int_of_string z)
       | 'p', [d; z] -> (opid, 'p', 0, int_of_string d, int_of_string z)
       | 'g', [d; z] -> (opid, 'g', 0, int_of_string d, int_of_string z)
-      | 'w', _ -> (opid, 'w', 0, 0, 0)
+      | ('w' | 'z'), _ -> (opid, 'w', 0, 0, 0)
       | _ -> failwith "bad token") (words s)
 
 (* the recorded events of one rank -> model events, recorded snapshots *)
@@ -96,6 +96,17 @@ let do_ce line idx casefile =
          List.iteri (fun rank ops -> List.iter (fun (_, kind, _, dst, size) ->
              if kind = 'p' || kind = 'g' then begin xfers := (!nx, kind, rank, dst, size) :: !xfers; incr nx end) ops) scr;
          let xfers = List.rev !xfers in
+         (* data tags: the i-th one-sided operation of a process gets the i-th value of its own counter.  A put by x into y and
+            a get by y from x both move data x -> y: when they carry the same tag MPI may pair them crosswise (hypothesis of the
+            model violated: nothing is predicted) *)
+         let maxt0 = if ub < 0 then 2147483647 else ub in
+         let tagged = List.concat (List.mapi (fun rank ops ->
+             let mine = List.filter (fun (_, kind, _, _, _) -> kind = 'p' || kind = 'g') ops in
+             let ts = List.map int_of_z (tags_from (z_of_int maxt0) (z_of_int 1) (z_of_int 0) (nat_of_int (List.length mine))) in
+             List.map2 (fun (_, kind, _, dst, _) tg -> if kind = 'p' then ('p', rank, dst, tg) else ('g', dst, rank, tg)) mine ts) scr) in
+         let collide = List.exists (fun (k1, s1, d1, t1) -> k1 = 'p' &&
+             List.exists (fun (k2, s2, d2, t2) -> k2 = 'g' && s1 = s2 && d1 = d2 && t1 = t2) tagged) tagged in
+         if collide then "<undefined: a get and a put carry the same (source, destination, tag)>" else
          let per_rank me =
            let am = List.concat (List.mapi (fun src ops ->
                List.filter_map (fun (opid, kind, tag, dst, size) -> if kind = 'a' && dst = me then Some (tag, src, opid, size) else None) ops) scr) in
